@@ -145,9 +145,7 @@ fn qq_to_expression(opts: Rc<dyn CompilerOpts>, body: Rc<SExp>) -> Result<BodyFo
                 _ => Vec::new(),
             };
 
-            if op.len() == 1 && (op[0] == b'q' || op[0] == 1) {
-                return Ok(BodyForm::Quoted(body_copy.clone()));
-            } else if let Some(list) = r.proper_list() {
+            if let Some(list) = r.proper_list() {
                 if op == b"quote" {
                     if list.len() != 1 {
                         return Err(CompileErr(l.clone(), format!("bad form {body}")));
@@ -188,10 +186,11 @@ fn qq_to_expression_list(
             }
         }
         SExp::Nil(l) => Ok(BodyForm::Quoted(SExp::Nil(l.clone()))),
-        _ => Err(CompileErr(
-            body.loc(),
-            format!("Bad list tail in qq {body}"),
-        )),
+        // An atom in tail position, as in (q . 5), stands for itself.
+        _ => {
+            let body_copy: &SExp = body.borrow();
+            Ok(BodyForm::Quoted(body_copy.clone()))
+        }
     }
 }
 
